@@ -54,6 +54,10 @@ type ProtoCfg struct {
 	// OnlyFuncs restricts reporting to Sends / effects inside functions whose
 	// name satisfies the predicate (a package may host several components).
 	OnlyFuncs func(name string) bool
+	// AllEffectsAfterSend: every listed effect (not only input-consuming ones)
+	// must not precede, in the same iteration, a Send that can fail: bookkeeping
+	// done before a failed Send is repeated on the retry.
+	AllEffectsAfterSend bool
 }
 
 type sendSite struct {
@@ -348,7 +352,7 @@ func RunProto(c *core.Ctx, cfg *ProtoCfg) protoResult {
 		// consume-before-send
 		for _, e := range effects {
 			eff, _ := cfg.effectOf(e)
-			if !eff.Consume {
+			if !eff.Consume && !cfg.AllEffectsAfterSend {
 				continue
 			}
 			if _, ex := cfg.Exempt[core.FuncName(e.Fn())+":"+eff.Label+":pre"]; ex {
